@@ -159,7 +159,12 @@ fn must_quote(s: &[u8]) -> bool {
     let kws = kws.map(|a| a.map(str::as_bytes));
 
     // https://yaml.org/spec/1.2.2/#912-document-markers
-    let is_doc_marker = |s: &[u8]| matches!(s, b"---" | b"...");
+    // a marker ends the document also when it is followed by white space, like in `--- a`
+    let is_marker = |rest: &[u8]| rest.first().map_or(true, |c| b" \t".contains(c));
+    let is_doc_marker = |s: &[u8]| {
+        let rest = s.strip_prefix(b"---").or_else(|| s.strip_prefix(b"..."));
+        rest.is_some_and(is_marker)
+    };
 
     // number overapproximation
     // numbers may start with a sign and with a dot, like `+1`, `.5`, `-.5`, and `-.inf`
